@@ -42,6 +42,8 @@ def run(ctx, col, tier):
     repo = ctx.repo
     from ..rules import stateless as _stateless_memo
     _stateless_memo.run_memo(ctx, col)
+    from ..rules import stale as _stale
+    _stale.run(ctx, col, ('swcgeom.core.tree_utils', 'swcgeom.transforms.path'))
     from ..rules import rootpos as _rootpos
     _rootpos.run(ctx, col, ('swcgeom.core.tree_utils', 'swcgeom.core.tree_utils_impl', 'swcgeom.transforms.path'))
     col.rule("R-PURE", "both operations work on copies: no store through an input alias, result fresh", floor=2)
